@@ -124,6 +124,12 @@ func oneCase(args []string) {
 		poolMid(false)
 	case args[0] == "POOLRD":
 		poolMid(true)
+	case args[0] == "EBTORN":
+		sd := int64(1)
+		if len(args) > 1 {
+			sd, _ = strconv.ParseInt(args[1], 10, 64)
+		}
+		ebTorn(sd)
 	case (args[0] == "LIN" || args[0] == "STRESS") && len(args) >= 5:
 		seed, _ := strconv.ParseInt(args[2], 10, 64)
 		threads, _ := strconv.Atoi(args[3])
